@@ -78,7 +78,9 @@ func (l *Lexer) nextInsideToken() token.Token {
 				tok.Type = "INT"
 			}
 
-			break
+			// readNumber stops behind the number, like the digit arm below
+			tok.LineNumber = l.curLine
+			return tok
 		}
 		tok = l.newToken(token.DOT)
 	case '+':
